@@ -846,6 +846,26 @@ def _arg_display(I, a, d):
     return FmtArg("display", a[0])
 
 
+@T.path("core::fmt::rt::Argument::new_lower_hex")
+def _arg_lower_hex(I, a, d):
+    return FmtArg("lower_hex", a[0])
+
+
+@T.path("core::fmt::rt::Argument::new_upper_hex")
+def _arg_upper_hex(I, a, d):
+    return FmtArg("upper_hex", a[0])
+
+
+@T.path("core::fmt::rt::Argument::new_binary")
+def _arg_binary(I, a, d):
+    return FmtArg("binary", a[0])
+
+
+@T.path("core::fmt::rt::Argument::new_octal")
+def _arg_octal(I, a, d):
+    return FmtArg("octal", a[0])
+
+
 @T.path("core::fmt::rt::Argument::new_debug")
 def _arg_debug(I, a, d):
     return FmtArg("debug", a[0])
@@ -926,6 +946,52 @@ class _PieceList:
         return self
 
 
+def _fmt_spec_value(I, arg):
+    """Concrete int or concrete text of a formatting argument, else None."""
+    v = peel(arg.ref)
+    if isinstance(v, bool):
+        return None
+    if isinstance(v, int):
+        return v
+    if arg.kind == "display" and isinstance(v, (BufObj, BytesRef)) and v.sb.is_concrete():
+        return v.sb.concrete()
+    return None
+
+
+def _fmt_with_spec(kind, v, flags, width):
+    """core::fmt padding rules for integers and strings (fill, alignment, `0` flag, `#` flag)."""
+    fill = chr(flags & 0x1FFFFF).encode("utf-8")
+    zero = (flags >> 24) & 1
+    alt = (flags >> 23) & 1
+    plus = (flags >> 21) & 1
+    align = (flags >> 29) & 3          # 0 left, 1 right, 2 centre, 3 unspecified
+    if isinstance(v, int):
+        body, prefix = {"display": (b"%d" % v, b""), "lower_hex": (b"%x" % v, b"0x"), "upper_hex": (b"%X" % v, b"0x"),
+                        "binary": (bin(v)[2:].encode(), b"0b"), "octal": (b"%o" % v, b"0o")}[kind]
+        prefix = (b"+" if plus and kind == "display" else b"") + (prefix if alt else b"")
+        if width is None or len(prefix) + len(body) >= width:
+            return prefix + body
+        pad = width - len(prefix) - len(body)
+        if zero:
+            return prefix + b"0" * pad + body
+        if align == 3:
+            align = 1
+        text = prefix + body
+    else:
+        text = v
+        n_chars = len(v.decode("utf-8", "replace"))
+        if width is None or n_chars >= width:
+            return text
+        pad = width - n_chars
+        if align == 3:
+            align = 0
+    if align == 0:
+        return text + fill * pad
+    if align == 1:
+        return fill * pad + text
+    return fill * (pad // 2) + text + fill * (pad - pad // 2)
+
+
 def _format_arguments(I, fa, out):
     t = fa.template
     i = 0
@@ -945,12 +1011,16 @@ def _format_arguments(I, fa, out):
             i += ln
         else:
             plain = n == 0xC0
+            flags, width, prec = 0x60000020, None, None
             if not plain:
                 if n & 1:
+                    flags = t[i] | (t[i + 1] << 8) | (t[i + 2] << 16) | (t[i + 3] << 24)
                     i += 4
                 if n & 2:
+                    width = t[i] | (t[i + 1] << 8)
                     i += 2
                 if n & 4:
+                    prec = t[i] | (t[i + 1] << 8)
                     i += 2
                 if n & 8:
                     argi = t[i] | (t[i + 1] << 8)
@@ -959,8 +1029,11 @@ def _format_arguments(I, fa, out):
             argi += 1
             if arg.kind == "display" and plain:
                 out = out + display_of(I, arg.ref)
+            elif arg.kind in ("display", "lower_hex", "upper_hex", "binary", "octal") and prec is None and (flags >> 27) & 1 == (1 if width is not None else 0) \
+                    and _fmt_spec_value(I, arg) is not None:
+                out = out + _fmt_with_spec(arg.kind, _fmt_spec_value(I, arg), flags, width)
             elif arg.kind == "display":
-                # width/precision/flags: only error messages use them in this crate
+                # precision / runtime width / symbolic values: only error messages use them in this crate
                 out = out + SBytes((sb.Atom("opaque", ("fmtopts", argi)),))
             else:
                 _dbg_n[0] += 1
@@ -2587,6 +2660,10 @@ def _contains(I, hay, pat):
     for seg in hay.segs:
         if isinstance(seg, bytes) and pat in seg:
             return True
+    if (hay.has_kind(sb.CutSeg) or hay.has_kind(sb.SymByte)) and not hay.has_kind(sb.BlobSeg) and len(pat) == 1 and pat[0] < 0x80:
+        # a single ASCII byte: decide every symbolic byte / cut position through the solver
+        h2 = decide_symbytes(I, hay, [pat[0]])
+        return len(split_with_cuts(I, h2, pat[0])) > 1
     if hay.has_kind(sb.CutSeg) or hay.has_kind(sb.SymByte) or hay.has_kind(sb.BlobSeg):
         raise Inconclusive("str::contains over symbolic bytes")
     # text atoms (digits / hex / base64 alphabets): a pattern with a byte outside those alphabets cannot
